@@ -3,7 +3,7 @@ import nat
 
 RULE = ("one case = one seed = one model from a seeded family chosen for the allocation site it stresses (dense cluster of single-geom free "
         "bodies: broad-phase pair list; many explicit <pair>s; multi-geom bodies: mid-phase; general generated scenes: efc and island arrays; "
-        "repo models) x EVERY arena size from 0 to what forward+3 steps need with ample memory, in steps of 8 bytes (models needing more than "
+        "repo models) x EVERY arena size from 0 to what forward+3 steps need with ample memory, in steps of 8 bytes shifted by a seeded 0..7 bytes (the declared memory need not be aligned) (models needing more than "
         "8*maxexec bytes: all sizes <= 2 KiB, the last 1 KiB below the need, and a seeded sample); each size is one faulted execution: "
         "mj_makeData, mj_forward, 3 x mj_step under the ASan build with the engine's own arena poisoning; evaluations counts models, the "
         "'faulted_executions' probe counts executions; non-trivial = some size produced a warning or a caught error; distinct = hash of (model, sizes)")
